@@ -11,6 +11,11 @@ NOTES = ("Contract-based deductive verification. Each check extracts the real fu
          "otherwise labelled bounded and not counted) discharge every obligation. Exit 2 = undecided (lost anchor / unsupported construct / solver limit), never an alarm.")
 
 CLAIMS = {
+    "C05": dict(
+        technique="Verus contracts on anchored fragments of the real sync server (process_sync pre-filter, handle_need empties decisions, partial-range clipping) + the literal SQL overlap clause translated to a spec fn and proved equivalent to interval overlap",
+        text="Proof, for all version ranges and bookkeeping states, that a need is skipped iff the server holds none of the requested versions (so held versions are answered and unknown ones are met with silence), that a version is declared empty iff it is neither buffered nor a known gap, and that the seq range sent for a buffered partial is exactly (buffered row) ∩ (requested range), rows being selected by SQL iff they overlap. Safety guards only: SQL result contents and the chunk tiling across calls (see C08) are not decided here.",
+        note="Assumed: `buffered`/`in_gaps` are the EXISTS sub-query results; stand-ins for Option::is_some_and / RangeInclusive::all keep the real closures; SQL fragment translated by vx/sqlpred.py (trusted), SQLite integer semantics mathematical.",
+    ),
     "C16": dict(
         technique="Verus contracts on four anchored fragments of the real code (uni payload dispatch, serve_sync prologue, sync-candidate filter closure, broadcast-target filter closure), extracted each run",
         text="Proof, for all cluster ids / members / payloads, of the four decision sites: a broadcast change is queued iff its payload's cluster id equals ours; serve_sync ends with exactly one Rejection(DifferentCluster) message and no data for a foreign cluster id; sync candidates and broadcast targets are other members of the same cluster. End-to-end 'never applies' beyond these sites is not decided.",
@@ -60,7 +65,6 @@ NOT_APPLICABLE = {
     "C20": "tokio concurrency (exclusion, priority, deadlock freedom); outside Kani (no threads) and Verus (needs its own sync primitives)",
     # not yet built — removed from this list as each check lands
     "C03": "check not built yet in this round (planned: DESIGN.md §5/C03)",
-    "C05": "check not built yet in this round (planned: DESIGN.md §5/C05)",
     "C07": "check not built yet in this round (planned: DESIGN.md §5/C07)",
     "C09": "check not built yet in this round (planned: DESIGN.md §5/C09)",
     "C10": "check not built yet in this round (planned: DESIGN.md §5/C10)",
